@@ -22,6 +22,7 @@ REPO = os.environ.get("VERIF_REPO", "/repo")
 OUT_DIR = os.environ.get("VERIF_OUT", VERIF_DIR)  # evidence/ and replays/ go here (mutation runs redirect it)
 MAX_SAMPLES = 8
 NPROC = int(os.environ.get("VERIF_NPROC", "16"))
+JOB_WALL_LIMIT = {"quick": 900, "thorough": 4 * 3600}
 
 
 def ensure_repo_on_path() -> None:
@@ -254,6 +255,10 @@ def _worker(args) -> Tuple[str, Any]:
     modname, jobname, kwargs, seed, tier = args
     try:
         os.environ.setdefault("PYTHONHASHSEED", "0")
+        import faulthandler
+
+        # wall-clock guard against a hung job: dump tracebacks and kill the worker (-> exit 2)
+        faulthandler.dump_traceback_later(JOB_WALL_LIMIT[tier], exit=True)
         ensure_repo_on_path()
         _quiet_logging()
         mod = importlib.import_module(modname)
@@ -262,6 +267,7 @@ def _worker(args) -> Tuple[str, Any]:
         mod.JOBS[jobname](col, seed=seed, tier=tier, **kwargs)
         col.extra.setdefault("job_wall_s", {})
         col.extra["job_wall_s"] = {f"{jobname}{_kw(kwargs)}": round(time.time() - t0, 2)}
+        faulthandler.cancel_dump_traceback_later()
         return ("ok", col)
     except BaseException:
         return ("err", f"job {jobname} {kwargs}:\n" + traceback.format_exc())
@@ -338,8 +344,11 @@ def run_property(pid: str, tier: str, seed: int, replay: Optional[str] = None) -
         results = [_worker(a) for a in args]
     else:
         ctx = mp.get_context("fork")
-        with ProcessPoolExecutor(max_workers=nproc, mp_context=ctx) as ex:
-            results = list(ex.map(_worker, args))
+        try:
+            with ProcessPoolExecutor(max_workers=nproc, mp_context=ctx) as ex:
+                results = list(ex.map(_worker, args))
+        except Exception:
+            results = [("err", "worker pool broke (a job hung past its wall limit or crashed):\n" + traceback.format_exc())]
     for status, payload in results:
         if status == "ok":
             total.merge(payload)
